@@ -40,8 +40,8 @@ Theorem C07_list_method_writes_receiver_only : forall fuel st l items m args v s
 Proof. exact list_method_local. Qed.
 Print Assumptions C07_list_method_writes_receiver_only.
 
-Theorem C07_dict_method_writes_receiver_only : forall st l kvs m args v s1 l',
-  dict_method st l kvs m args = Ok v s1 -> l' <> l -> hget s1 l' = hget st l'.
+Theorem C07_dict_method_writes_receiver_only : forall fuel st l kvs m args v s1 l',
+  dict_method fuel st l kvs m args = Ok v s1 -> l' <> l -> (l' < length (heap st))%nat -> hget s1 l' = hget st l'.
 Proof. exact dict_method_local. Qed.
 Print Assumptions C07_dict_method_writes_receiver_only.
 
